@@ -33,6 +33,9 @@ theorem processIO_safe (w : World) (hs : Safe w) : Safe (processIO w).1 := by
       intro a h
       apply ih
       unfold userIO
+      split
+      · exact ⟨h.1, h.2⟩
+      unfold userIO0
       dsimp only
       split
       · exact ⟨h.1, h.2⟩
@@ -311,13 +314,24 @@ def arrivals_append_Full : Prop :=
 theorem arrivals_append_partial (w : World) (u : Nat) (h : (w.net.get u).rx.isEmpty = false)
     (hroom : roomShort (w.users.get u).buf.length = false) :
     ((userIO w u).users.get u).buf = (w.users.get u).buf ++ copyChars (w.users.get u).single (w.net.get u).rx := by
-  simp [userIO, h, hroom]
+  simp [userIO, userIO0, heldBack, h, hroom]
 
-/-- ... and otherwise everything pending is lost: only the new bytes are buffered, and the model raises `overflow` -/
+/-- ... when it does not and no complete command is buffered (an unfinished over-long line), everything pending is
+    lost: only the new bytes are buffered, and the model raises `overflow` -/
 theorem arrivals_discard (w : World) (u : Nat) (h : (w.net.get u).rx.isEmpty = false)
-    (hroom : roomShort (w.users.get u).buf.length = true) :
+    (hroom : roomShort (w.users.get u).buf.length = true)
+    (hnc : hasCmd (w.users.get u).single (w.users.get u).buf = false) :
     ((userIO w u).users.get u).buf = copyChars (w.users.get u).single (w.net.get u).rx ∧ (userIO w u).overflow = true := by
-  simp [userIO, h, hroom]
+  simp [userIO, userIO0, heldBack, h, hroom, hnc]
+
+/-- ... and when a complete command is buffered the read is held back: buffer and socket stay as they are, nothing
+    typed ahead is lost (the repaired behaviour: before, this case discarded the buffer as well) -/
+theorem arrivals_held (w : World) (u : Nat) (h : (w.net.get u).rx.isEmpty = false)
+    (hroom : roomShort (w.users.get u).buf.length = true)
+    (hc : hasCmd (w.users.get u).single (w.users.get u).buf = true) :
+    ((userIO w u).users.get u).buf = (w.users.get u).buf ∧ (userIO w u).net = w.net ∧
+      ((userIO w u).users.get u).cmdInBuf = true := by
+  simp [userIO, heldBack, h, hroom, hc]
 
 /-- witness: a user with MAX_TEXT buffered bytes (any length from 1664 on, with the constants of the source) receives one
     more byte -/
@@ -328,7 +342,20 @@ theorem arrivals_append_Full_false : ¬ arrivals_append_Full := by
   have hbuf : (w.users.get 1).buf = List.replicate NV.Gen.C12.maxText 'a' := by rw [← hw]; rfl
   have hs : roomShort (w.users.get 1).buf.length = true := by rw [hbuf, List.length_replicate]; decide
   have h1 := h w 1 hrx
-  rw [(arrivals_discard w 1 hrx hs).1] at h1
+  have hnc : hasCmd (w.users.get 1).single (w.users.get 1).buf = false := by
+    rw [hbuf]
+    have hsg : (w.users.get 1).single = false := by rw [← hw]; rfl
+    have hne : (List.replicate NV.Gen.C12.maxText 'a').contains NUL = false := by
+      simp [List.contains_iff_mem, List.mem_replicate]
+      decide
+    have hd : dropNul (List.replicate NV.Gen.C12.maxText 'a') = List.replicate NV.Gen.C12.maxText 'a' := by
+      have : NV.Gen.C12.maxText = (NV.Gen.C12.maxText - 1) + 1 := by decide
+      rw [this, List.replicate_succ]
+      simp [dropNul, List.dropWhile_cons]
+      decide
+    simp only [hasCmd, firstCmd, hsg, hd, hne, Bool.false_eq_true, if_false]
+    split <;> rfl
+  rw [(arrivals_discard w 1 hrx hs hnc).1] at h1
   have := congrArg List.length h1
   rw [List.length_append, hbuf, List.length_replicate] at this
   have hpos : 0 < NV.Gen.C12.maxText := by decide
